@@ -14,7 +14,8 @@ RULE = ('Hypothesis cases over (max=W, min, key seed, data seed/kind, prefix len
         'boundary after their first common one, under arbitrary segmentation up to len-2*max; (locality) every chunk with '
         'start+max+4 <= edit offset and start < min(len,len\')-2*max is unchanged by an aligned replace/insert/delete. '
         'Probabilistic oracle, PRNG data, min <= max/16: all boundaries at S-offset >= 512*W coincide on 640*W-long streams '
-        '(failure probability < 1e-15 per case, derivation in DESIGN.md C11). Keys: independent keys, keys differing in one '
+        '(failure probability < 1e-15 per case, derivation in DESIGN.md C11) and all boundaries outside the tail lie on the '
+        'alignment grid of S. Keys: independent keys, keys differing in one '
         'bit of the multiplier half, and keys differing in the top bit of the mask half give different boundary sets on '
         '>=400 chunks. Non-trivial: the two streams\' boundary sets differ before they re-synchronise.')
 ASSUMPTIONS = ['PRNG (Mersenne twister) output counts as high-entropy data',
@@ -181,6 +182,13 @@ def run_case(case):
         p2 = data_of('prng', case['pseed'] + 7, case['p2'])
         b1 = [b - len(p1) for b in boundaries(mn, W, key, [p1 + S])]
         b2 = [b - len(p2) for b in boundaries(mn, W, key, [p2 + S])]
+        # mechanism behind re-synchronisation (and C10's alignment clause): with aligned prefixes every boundary
+        # outside the tail zone lies on the 4-byte grid of S, so equal content sees equal candidate offsets
+        for label, bs in (('first', b1), ('second', b2)):
+            off = [b for b in bs if b % 4 and b < len(S) - 2 * W]
+            if off:
+                return Outcome(fail('off-grid', f'{label} stream has boundaries off the alignment grid (S-offsets {off[:5]}, '
+                                    f'min={mn}, max={W}): equal data no longer sees equal candidate offsets'), classes)
         R = 512 * W
         t1 = [b for b in b1 if b >= R]
         t2 = [b for b in b2 if b >= R]
